@@ -86,3 +86,22 @@ func parseMsg(raw []byte) (*pb.QuoteV4, error) {
 	}
 	return q, nil
 }
+
+// faultyGetter wraps a getter and panics or fails at its failAt-th fetch (1-based).
+type faultyGetter struct {
+	inner  trust.HTTPSGetter
+	failAt int
+	mode   string // "panic" | "error"
+	n      int
+}
+
+func (g *faultyGetter) Get(url string) (map[string][]string, []byte, error) {
+	g.n++
+	if g.n == g.failAt {
+		if g.mode == "panic" {
+			panic("simulated getter crash at fetch " + fmt.Sprint(g.n))
+		}
+		return nil, nil, fmt.Errorf("simulated getter failure at fetch %d", g.n)
+	}
+	return g.inner.Get(url)
+}
